@@ -37,7 +37,7 @@ pub struct Plan {
 fn elem_type(ty: &str) -> &'static str {
     match ty {
         "int" => "int",
-        "str" => "str",
+        "str" | "wstr" => "str",
         "pair" => "(int, int)",
         "spair" => "(str, str)",
         "float" => "float",
@@ -59,6 +59,16 @@ fn lambda(name: &str, ty: &str) -> (&'static str, String) {
     let same = elem_type(ty).to_string();
     match name {
         "id" => ("pu x -> x end", same),
+        // re-entrant callbacks (SyltStd ReNames): `c` is the list being traversed, aux / auxd / auxs the other containers
+        "auxget" => ("pu x -> maybe.orDefault(list.get(aux, x), -1) end", "int".into()),
+        "selfsum" => ("pu x -> list.fold(c, x, pu v, a -> a + v end) end", "int".into()),
+        "dget" => ("pu x -> maybe.orDefault(dict.get(auxd, x), -1) end", "int".into()),
+        "nestmap" => ("pu x -> list.fold(list.map(aux, pu y -> y * x end), 0, pu v, a -> a + v end) end", "int".into()),
+        "auxget1" => ("pu x -> list.get(aux, x) == Maybe.Just 1 end", same),
+        "selfget0" => ("pu x -> list.get(c, 0) == Maybe.Just x end", same),
+        "indict" => ("pu x -> dict.contains_key(auxd, x) end", same),
+        "inset" => ("pu x -> set.contains(auxs, x) end", same),
+        "getacc" => ("pu v, a -> a * 3 + maybe.orDefault(list.get(aux, v), 5) end", "int".into()),
         "inc" => ("pu x -> x + 1 end", "int".into()),
         "mkpair" => ("pu x -> (x, x) end", "(int, int)".into()),
         "dup" => ("pu x -> x + x end", "str".into()),
@@ -122,6 +132,7 @@ struct Emitter {
     kind: String,
     ty: String,
     reg: usize,
+    aux: Value,
 }
 
 impl Emitter {
@@ -191,6 +202,14 @@ impl Emitter {
         let ct = self.container_type();
         let kind = self.kind.clone();
         match (kind.as_str(), name) {
+            ("list", "lit") if self.ty == "int" => {
+                // callbacks (pure functions) may only mention constants: the list and the other containers are constant bindings
+                let aux = self.aux.clone();
+                self.stmt(format!("aux: [int] : {}", lit(&aux["l"])));
+                self.stmt(format!("auxd: dict.Dict(int, int) : dict.from_list({})", lit(&aux["d"])));
+                self.stmt(format!("auxs: set.Set(int) : set.from_list({})", lit(&aux["s"])));
+                self.stmt(format!("c: {} : {}", ct, lit(&op["a"][0])))
+            }
             ("list", "lit") => self.stmt(format!("c: {} = {}", ct, lit(&op["a"][0]))),
             (k, "new") => self.stmt(format!("c: {} = {}.new()", ct, k)),
             (k, "from_list") => {
@@ -252,7 +271,8 @@ fn op_text(op: &Value) -> String {
 /// The body of the Sylt function that replays one transition, and the lines it must print.
 fn transition(case: &Value) -> (Vec<String>, Vec<PlanLine>) {
     let mut em = Emitter { body: vec![], lines: vec![], nlit: 0,
-        kind: case["kind"].as_str().unwrap().to_string(), ty: case["ty"].as_str().unwrap().to_string(), reg: 0 };
+        kind: case["kind"].as_str().unwrap().to_string(), ty: case["ty"].as_str().unwrap().to_string(), reg: 0,
+        aux: case["aux"].clone() };
     if em.kind == "share" {
         return share_transition(case, em);
     }
@@ -265,6 +285,22 @@ fn transition(case: &Value) -> (Vec<String>, Vec<PlanLine>) {
         let is_op = k == last;
         if em.kind != "helper" && k == 0 {
             em.construct(o);
+            continue;
+        }
+        if o["op"] == "for_each" {
+            // the callback pushes what it computed onto another list: that list is the result
+            let g = o["a"][0]["name"].as_str().unwrap();
+            let (elem, body) = match g {
+                "pushget" => ("int", "maybe.orDefault(list.get(aux, x), -1) + list.len(c)"),
+                "pushhas" => ("bool", "list.contains(c, x + 1)"),
+                other => tool_error(&format!("for_each callback {} is not in the menu", other)),
+            };
+            let out = format!("o{}", k);
+            em.stmt(format!("{}: [{}] : []", out, elem));
+            em.stmt(format!("list.for_each(c, fn x do list.push({}, {}) end)", out, body));
+            if is_op {
+                em.observe("result", &op_text(o), &out, &case["res"], elem, None);
+            }
             continue;
         }
         let call = em.call(o);
@@ -337,28 +373,50 @@ fn share_step(em: &mut Emitter, o: &Value, regs: &[Value], stub_alias: bool) -> 
         let s = format!("r{}", from);
         let fname = o["a"][0]["name"].as_str().unwrap_or("");
         match name {
-            "lit" => em.stmt(format!("{}: {} = {}", r, t, lit(&o["a"][0]))),
-            "map" => em.stmt(format!("{}: {} = list.map({}, {})", r, t, s, lambda(fname, &ty).0)),
-            "filter" => em.stmt(format!("{}: {} = list.filter({}, {})", r, t, s, lambda(fname, &ty).0)),
-            "copy" if stub_alias => em.stmt(format!("{}: {} = {}", r, t, s)),
+            // registers are constant bindings (the containers stay mutable): pure callbacks may mention them
+            "lit" => em.stmt(format!("{}: {} : {}", r, t, lit(&o["a"][0]))),
+            "map" => em.stmt(format!("{}: {} : list.map({}, {})", r, t, s, lambda(fname, &ty).0)),
+            "filter" => em.stmt(format!("{}: {} : list.filter({}, {})", r, t, s, lambda(fname, &ty).0)),
+            "copy" if stub_alias => em.stmt(format!("{}: {} : {}", r, t, s)),
             "copy" => {
-                em.stmt(format!("{}: {} = []", r, t));
+                em.stmt(format!("{}: {} : []", r, t));
                 em.stmt(format!("list.for_each({}, fn x do list.push({}, x) end)", s, r));
             }
-            "dict.from_list" => em.stmt(format!("{}: {} = dict.from_list({})", r, t, s)),
-            "set.from_list" => em.stmt(format!("{}: {} = set.from_list({})", r, t, s)),
+            "dict.from_list" => em.stmt(format!("{}: {} : dict.from_list({})", r, t, s)),
+            "set.from_list" => em.stmt(format!("{}: {} : set.from_list({})", r, t, s)),
             "dict.map" => {
-                let f = if fname == "id" { "pu e -> e end".to_string() } else { format!("pu e -> (e[0], {}) end", lit(&o["a"][1])) };
-                em.stmt(format!("{}: {} = dict.map({}, {})", r, t, s, f));
+                let f = match fname {
+                    "id" => "pu e -> e end".to_string(),
+                    "setw" => format!("pu e -> (e[0], {}) end", lit(&o["a"][1])),
+                    "reget" => format!("pu e -> (e[0], maybe.orDefault(dict.get({}, e[0]), {})) end", s, lit(&o["a"][1])),
+                    "first" => "pu e -> maybe.orDefault(list.get(r1, 0), e) end".to_string(),
+                    other => tool_error(&format!("dict.map function {} is not in the menu", other)),
+                };
+                em.stmt(format!("{}: {} : dict.map({}, {})", r, t, s, f));
             }
-            "set.map" => em.stmt(format!("{}: {} = set.map({}, {})", r, t, s, lambda(fname, &ty).0)),
+            "set.map" => {
+                let f = match fname {
+                    "reself" => format!("pu x -> (if set.contains({}, x) do x else {} end) end", s, lit(&o["a"][1])),
+                    "first" => "pu x -> maybe.orDefault(list.get(r1, 0), x) end".to_string(),
+                    other => lambda(other, &ty).0.to_string(),
+                };
+                em.stmt(format!("{}: {} : set.map({}, {})", r, t, s, f));
+            }
             "entries" => {
-                em.stmt(format!("{}: {} = []", r, t));
-                em.stmt(format!("dict.for_each({}, fn e do list.push({}, e) end)", s, r));
+                em.stmt(format!("{}: {} : []", r, t));
+                if fname == "re" {
+                    em.stmt(format!("dict.for_each({}, fn e do list.push({}, (e[0], maybe.orDefault(dict.get({}, e[0]), {}))) end)", s, r, s, lit(&o["a"][1])));
+                } else {
+                    em.stmt(format!("dict.for_each({}, fn e do list.push({}, e) end)", s, r));
+                }
             }
             "elems" => {
-                em.stmt(format!("{}: {} = []", r, t));
-                em.stmt(format!("set.for_each({}, fn e do list.push({}, e) end)", s, r));
+                em.stmt(format!("{}: {} : []", r, t));
+                if fname == "re" {
+                    em.stmt(format!("set.for_each({}, fn e do\n        if set.contains({}, e) do\n            list.push({}, e)\n        end\n    end)", s, s, r));
+                } else {
+                    em.stmt(format!("set.for_each({}, fn e do list.push({}, e) end)", s, r));
+                }
             }
             other => tool_error(&format!("unknown derivation {}", other)),
         }
